@@ -345,7 +345,11 @@ def check_case(cell, elems, ctx):
                 if m is not None and m < mpf("1e-9"):
                     ctx.exclude("decision_margin")
                     continue
-                if op.name in ("equal", "not_equal") and b is not None and cell["sa"] != cell.get("sb") and \
+                sub_rounding_tol = False
+                if op.name == "isclose":
+                    sp_ = o.per_elem[ipres]
+                    sub_rounding_tol = mpf(sp_.get("atol", 0)) + mpf(sp_.get("rtol", 0)) * R.scale_of(a, b) < mpf("1e-11") * R.scale_of(a, b)
+                if (op.name in ("equal", "not_equal") or sub_rounding_tol) and b is not None and cell["sa"] != cell.get("sb") and \
                         opcheck.vec_close(a, b, mpf("1e-12"), R.scale_of(a, b)):
                     # the same vector stored in two systems: exact equality is decided by the last bit of a conversion, which the
                     # scalar and the array kernels need not round alike
